@@ -315,9 +315,16 @@ func regConv[S, D signal.SignalTypes](s, d int, name string, f func(*signal.Buff
 		db := signal.Alloc[D](signal.Allocator{Channels: ch, Length: frames, Capacity: frames})
 		sentinel := fromVal[D](Garbage(d))
 		return func(in, out []uint64) {
+			// exactly len(in) samples: whole frames plus, when len(in) is not a multiple of the channel
+			// count, a partly filled last frame (made with AppendSample on a window)
 			s2, d2 := sb, db
-			if fr := (len(in) + ch - 1) / ch; fr < frames {
-				s2, d2 = sb.Slice(0, fr), db.Slice(0, fr)
+			if len(in) != frames*ch {
+				whole := len(in) / ch
+				s2, d2 = sb.Slice(0, whole), db.Slice(0, whole)
+				for k := whole * ch; k < len(in); k++ {
+					s2.AppendSample(0)
+					d2.AppendSample(0)
+				}
 			}
 			for i, r := range in {
 				s2.SetSample(i, fromVal[S](Val{sk, r}))
